@@ -5,6 +5,8 @@
      (q c a b) (p t...)
    requests:
      (run fuel (t...))                 -> ((R depth (FRAME...))...)   R = (ok t) | (err k), FRAME = ((name t)...)
+     (runs fuel (t...) GLOBALFRAME SYSFRAME)  the same from an initial global frame above a system frame (not reported)
+     also (r bits) a float, (py id (names)) a Python callable
      (merge (ARGS...))                 -> (list ARGS) | (arr t...) | (err)
      (fill ARGS (ARGS...))             -> (arr t...)                   the Spec's fill_all
      (op1 k (t)) (op2 k a b)           -> R *)
@@ -40,6 +42,8 @@ Fixpoint term_of_sx (fuel : nat) (x : sx) : option term :=
   | SL (SS t :: rest) =>
       if is_tag "i" t then match rest with [SZ z] => Some (TInt z) | _ => None end else
       if is_tag "c" t then match rest with [SZ z] => Some (TChar z) | _ => None end else
+      if is_tag "r" t then match rest with [SZ z] => Some (TReal z) | _ => None end else
+      if is_tag "py" t then match rest with [SZ z; SL ps] => option_map (TPy z) (sx_get_zs ps) | _ => None end else
       if is_tag "s" t then option_map TStr (sx_get_zs rest) else
       if is_tag "y" t then match rest with [SZ z] => Some (TSym z) | _ => None end else
       if is_tag "n" t then Some TNone else
@@ -87,6 +91,8 @@ Fixpoint sx_of_term (t : term) : sx :=
                 match a with None => SL [SZ 0] | Some l => SL (SZ 1 :: map sx_of_term l) end in
   match t with
   | TInt z => SL [sx_w "i"; SZ z]
+  | TReal z => SL [sx_w "r"; SZ z]
+  | TPy z ps => SL [sx_w "py"; SZ z; SL (map SZ ps)]
   | TStr s => SL (sx_w "s" :: map SZ s)
   | TChar c => SL [sx_w "c"; SZ c]
   | TArr l => SL (sx_w "a" :: map sx_of_term l)
@@ -136,12 +142,35 @@ Fixpoint all_some {A} (l : list (option A)) : option (list A) :=
   | None :: _ => None
   end.
 
+(* the Python callables the harness registers (by id): 0 = boom (always raises), 1 = pyid (returns x),
+   2 = pyadd (x + y on integers), 10 = the system function .fc given something that is not a channel (raises) *)
+Definition pyfun (id : Z) (vals : list term) : res :=
+  if id =? 1 then match vals with v :: _ => Ok v | [] => Err EType end
+  else if id =? 2 then match vals with [TInt a; TInt b] => Ok (TInt (a + b)) | _ => Err EUnmodelled end
+  else Err EType.
+
+Fixpoint frame_of_sx (l : list sx) : option frame :=
+  match l with
+  | [] => Some []
+  | SL [SZ k; v] :: r =>
+      match term_of_sx 400 v, frame_of_sx r with
+      | Some v', Some f => Some ((k, v') :: f)
+      | _, _ => None
+      end
+  | _ => None
+  end.
+
+(* the outermost frame stands for the system scope: it is not reported *)
+Definition sx_of_step_sys (rs : res * state) : sx :=
+  let fr := removelast (frames (snd rs)) in
+  SL [sx_of_res (fst rs); sx_nat (List.length fr); SL (map sx_of_frame fr)].
+
 Definition dispatch (x : sx) : sx :=
   match x with
   | SL [SS t; SZ fuel; SL progs] =>
       if is_tag "run" t then
         match many_terms progs with
-        | Some ps => SL (map sx_of_step (run eval_fn_pop_in_finally merge_restarts_per_fill (Z.to_nat fuel) init_state ps))
+        | Some ps => SL (map sx_of_step (run eval_fn_pop_in_finally merge_restarts_per_fill cond_zero_test_is_exact pyfun (Z.to_nat fuel) init_state ps))
         | None => sx_err "run"
         end
       else if is_tag "op1" t then
@@ -150,6 +179,15 @@ Definition dispatch (x : sx) : sx :=
                  | Some o, Some a' => sx_of_res (apply1 o a')
                  | _, _ => sx_err "op1" end
         | _ => sx_err "op1"
+        end
+      else sx_err "op"
+  | SL [SS t; SZ fuel; SL progs; SL glob; SL sys] =>
+      if is_tag "runs" t then
+        match many_terms progs, frame_of_sx glob, frame_of_sx sys with
+        | Some ps, Some g, Some sy =>
+            SL (map sx_of_step_sys (run eval_fn_pop_in_finally merge_restarts_per_fill cond_zero_test_is_exact pyfun
+                                        (Z.to_nat fuel) (mk_state [g; sy] []) ps))
+        | _, _, _ => sx_err "runs"
         end
       else sx_err "op"
   | SL [SS t; SL arr] =>
